@@ -301,6 +301,18 @@ func generateMode(key echx.KeyPair, b base, thorough, retry bool) (out []fault) 
 			miss[i] = 0x7777
 			add("refs-absent-from-outer", fmt.Sprint(i), []string{IP}, withMarker(tlsref.OuterExtensions(miss...)).Build().Outer.Record())
 		}
+		// a reference to an extension type the outer hello does not carry, for type codes that have a special standing elsewhere
+		// (GREASE values, the last code point, renegotiation_info): replacing each reference, and inserted at each position
+		for _, code := range []uint16{0x0a0a, 0x1a1a, 0xfafa, 0xffff, 0xff01} {
+			for i := range refs {
+				miss := slices.Clone(refs)
+				miss[i] = code
+				add("refs-absent-from-outer-special-code", fmt.Sprintf("%#x for %d", code, i), []string{IP}, withMarker(tlsref.OuterExtensions(miss...)).Build().Outer.Record())
+			}
+			for i := 0; i <= len(refs); i++ {
+				add("refs-absent-from-outer-special-code", fmt.Sprintf("%#x inserted at %d", code, i), []string{IP}, withMarker(tlsref.OuterExtensions(slices.Insert(slices.Clone(refs), i, code)...)).Build().Outer.Record())
+			}
+		}
 		for _, bad := range []uint16{tlsref.ExtECH, tlsref.ExtOuterExtensions} {
 			for i := 0; i <= len(refs); i++ {
 				add("refs-name-ech-extension", fmt.Sprintf("%#x at %d", bad, i), []string{IP}, withMarker(tlsref.OuterExtensions(slices.Insert(slices.Clone(refs), i, bad)...)).Build().Outer.Record())
@@ -532,7 +544,7 @@ func evalFault(r *ev.Run, key echx.KeyPair, f fault) {
 	case res.Err == nil:
 		if f.mayBeValid {
 			// tolerated iff handled transparently: passthrough of the same bytes or genuine acceptance
-			same := len(res.Forwarded) == len(f.stream) && len(f.stream) >= 5 && res.Forwarded[0] == f.stream[0] && bytes.Equal(res.Forwarded[3:], f.stream[3:])
+			same := bytes.Equal(res.Forwarded, f.stream)
 			if !res.Accepted && !same {
 				r.Violation("modified:"+k, "mutation neither aborted nor forwarded unchanged", replay)
 			}
